@@ -150,7 +150,8 @@ func c10Body(x *engine.Exec, pos c10Position, cons int, ev model.Event, isKey bo
 			target = reflect.New(reflect.TypeOf(ev.Ext)).Interface()
 			u, err := gotype.NewUnfolder(target)
 			if err != nil {
-				engine.Fail("typed target %T refused: %v", target, err)
+				r.err = fmt.Errorf("NewUnfolder refused %T: %v", target, err)
+				return
 			}
 			raw, v = u, structform.EnsureExtVisitor(u)
 		case 12:
@@ -174,7 +175,8 @@ func c10Body(x *engine.Exec, pos c10Position, cons int, ev model.Event, isKey bo
 			}
 			u, err := gotype.NewUnfolder(target)
 			if err != nil {
-				engine.Fail("string target refused: %v", err)
+				r.err = fmt.Errorf("NewUnfolder refused %T: %v", target, err)
+				return
 			}
 			raw, v = u, structform.EnsureExtVisitor(u)
 		case 5:
